@@ -880,6 +880,27 @@ LibCall(name, args, env, sc, fuel) ==
            Bind(CmpV(a, b, f1), LAMBDA k :
              Ok(BoolV(CASE name = "__array_less" -> k < 0 [] name = "__array_less_or_equal" -> k <= 0
                         [] name = "__array_greater" -> k > 0 [] name = "__array_greater_or_equal" -> k >= 0))))
+    [] name = "__compare" /\ Len(args) = 2 ->
+         \* three-way form of `<`: -1 / 0 / 1; operands of different types, booleans, null, objects and functions
+         \* are not ordered (run-time error), arrays are compared element by element (forcing only up to the
+         \* first difference)
+         Both(A(1), A(2), LAMBDA a, b : Bind(CmpV(a, b, f1), LAMBDA k : Ok(NumV(k))))
+    [] name = "__compare_array" /\ Len(args) = 2 ->
+         Both(ChkT(A(1), {"arr"}, {}), ChkT(A(2), {"arr"}, {}), LAMBDA a, b :
+           Bind(CmpV(a, b, f1), LAMBDA k : Ok(NumV(k))))
+    [] name = "primitiveEquals" /\ Len(args) = 2 ->
+         \* different types: false; containers and functions are not primitive (error); never forces an element
+         Both(A(1), A(2), LAMBDA a, b :
+           IF a[1] # b[1] THEN Ok(BoolV(FALSE))
+           ELSE IF a[1] \in {"arr", "obj", "func"} THEN RtErr
+           ELSE Ok(BoolV(a = b)))
+    [] name = "assertEqual" /\ Len(args) = 2 ->
+         \* true, or an error whose message shows both operands: building it forces them completely (left one
+         \* first), so a failure inside an operand that equality never reached is what the call reports
+         Both(A(1), A(2), LAMBDA a, b :
+           Bind(EqualV(a, b, f1), LAMBDA e :
+             IF e THEN Ok(BoolV(TRUE))
+             ELSE Bind(ToStr(a, f1, FALSE), LAMBDA sa : Bind(ToStr(b, f1, FALSE), LAMBDA sb : RtErr))))
     [] OTHER -> Outside
 
 StdCall(name, args, env, sc, fuel) ==
